@@ -67,9 +67,10 @@ class Model:
         self.renested = helpers.renest_moved_functions(self.modules, exits)
         self.helpers_inlined = helpers.inline_new_helpers(self.modules, exits)
         self.helpers_inlined += helpers.inline_new_procedures(self.modules, exits)
-        star_comps = helpers.load_star_comps()
+        star_comps, fold_calls = helpers.load_star_comps(), helpers.load_fold_calls()
         for n_, t_ in self.modules.items():
             helpers.beta_reduce(t_)
+            helpers.fold_calls_to_operators(t_, fold_calls.get(n_, set()))
             helpers.unstar_literals(t_)
             helpers.star_comp_to_map(t_, star_comps.get(n_, set()))
         ifs_table, neg_guards, param_rebinds, loop_ifelse = helpers.load_ifs(), helpers.load_neg_guards(), helpers.load_param_rebinds(), helpers.load_loop_ifelse(); if_tests = helpers.load_if_tests()
